@@ -264,12 +264,28 @@ class Geometry(DaeObject):
             input_vnode.set('source', '#' + new_source)
             vnode.set('id', new_source + '-vertices')
 
+        vert_ref = input_vnode.get('source')[1:]
+
         # a triangle set loaded from strips or fans is written as <triangles>; its element is
         # recreated before the inputs are redirected below, so that the first save already
         # writes what every later save writes
         for prim in self.primitives:
             if isinstance(prim, triangleset.TriangleSet) and prim.xmlnode.tag != tag('triangles'):
                 prim._recreateXmlNode()
+                # the new element lists every input of the set; what the set receives through
+                # <vertices> besides the positions would be read a second time on load
+                for vertexnode in prim.xmlnode.findall(tag('input')):
+                    if vertexnode.get('semantic') != 'VERTEX' or vertexnode.get('source')[1:] != vert_ref:
+                        continue
+                    for vinput in vnode.findall(tag('input')):
+                        if vinput.get('semantic') == 'POSITION':
+                            continue
+                        for node in prim.xmlnode.findall(tag('input')):
+                            if node.get('semantic') == vinput.get('semantic') and \
+                                    node.get('source') == vinput.get('source') and \
+                                    node.get('offset') == vertexnode.get('offset'):
+                                prim.xmlnode.remove(node)
+                                break
 
         # any source references in primitives that are pointing to the
         # same source that the vertices tag is pointing to to instead
